@@ -127,6 +127,19 @@ func c12Replay(task engine.SeqTask) (res engine.SeqResult) {
 				return
 			}
 			note()
+		case "dup2":
+			// a legacy duplicate of the latest version that shares its batch with a further version (contents without references)
+			cur := h.M.Datasets["A"].Latest(op.Ents[0].ID)
+			next := w.Pool[op.Ents[1].C].C
+			if cur == nil || len(cur.C.Refs) > 0 || next.Equal(cur.C) {
+				res.Skip, res.Key = true, "skip"
+				return
+			}
+			if err := h.VInjectDuplicateInBatch("A", op.Ents[0].ID, next); err != nil {
+				res.HarnessEr = "dup2: " + err.Error()
+				return
+			}
+			note()
 		case "compact":
 			// truth before: point-in-time answers at every recorded instant, positions of the feed
 			var before []c12Instant
@@ -261,7 +274,10 @@ func init() {
 				return server.VOp{K: "batch", DS: "A", Ents: []server.VEnt{{ID: "e1", C: pi(c1)}, {ID: "e1", C: pi(c2)}}}
 			}
 			pa := []server.VOp{w("v1"), w("v2"), pair("v1", "v2"), pair("v2", "v1"), pair("v1", "v1"), pair("v1r2", "v2r2"),
-				{K: "dup", Ents: []server.VEnt{{ID: "e1"}}}, {K: "compact", N: 1}, {K: "compact", N: 100000}}
+				{K: "dup", Ents: []server.VEnt{{ID: "e1"}}},
+				// ... one of the two a legacy duplicate of the version stored before
+				{K: "dup2", Ents: []server.VEnt{{ID: "e1"}, {ID: "e1", C: pi("v2")}}}, {K: "dup2", Ents: []server.VEnt{{ID: "e1"}, {ID: "e1", C: pi("v1")}}},
+				{K: "compact", N: 1}, {K: "compact", N: 100000}}
 			var praw []json.RawMessage
 			for _, o := range pa {
 				b, _ := json.Marshal(o)
